@@ -225,6 +225,7 @@ package routing
 //@   requires m.K != nil && m.X != nil && m.DeltaT != nil
 //@   requires m.K.rank == 1 && m.K.dim(0) >= 1 && m.X.rank == 1 && m.X.dim(0) >= 1 && m.DeltaT.rank == 1 && m.DeltaT.dim(0) >= 1
 //@   requires m.K.root != states.root && m.K.root != outputs.root && m.X.root != states.root && m.X.root != outputs.root && m.DeltaT.root != states.root && m.DeltaT.root != outputs.root
+//@   assigns nothing
 //@   writes wroot == states.root && exists(s, 0, states.dim(1), widx == states.idx(i, s))
 //@   writes wroot == outputs.root && exists(o, 0, outputs.dim(1), exists(t, 0, outputs.dim(2), widx == outputs.idx(i, o, t)))
 //@   callsite muskingum [C04.arg-input] arg0.dim(0) == inputs.dim(2) && arg0.root == inputs.root && forall(t, 0, inputs.dim(2), arg0.idx(t) == inputs.idx(i % inputs.dim(0), 0, t))
